@@ -484,7 +484,10 @@ def gen_tlp(repo) -> Tuple[str, List[str]]:
                               ast.Yield, ast.YieldFrom, ast.Await, ast.NamedExpr, ast.With, ast.Delete)) and n is not f:
                 fail(n, f"construct in {cls}.{name}")
         fn = TFn(w, cls, f, rty, assumptions, False)
-        body = fn.translate(params, None)
+        try:
+            body = fn.translate(params, None)
+        except Unsupported as ex:
+            body = P.function_stub("TlpGen.v", f"{cls}.{name}", ex)
         ps = [(cid(n), t) for n, t, _ in params]
         sig = " ".join(f"({n} : {coq_type(t)})" for n, t in ps)
         rt_ = coq_type(rty)
